@@ -33,6 +33,8 @@ type c17Case struct {
 	Max    F64   `json:"max,omitempty"`
 	Levels []int `json:"levels,omitempty"`
 	Hist   int   `json:"hist,omitempty"` // history on the scale object before the observed calls
+	// options for Nice and for the calls after it; nil = the same as O
+	NO *c17Opts `json:"no,omitempty"`
 }
 
 type c17Ticker struct {
@@ -97,6 +99,10 @@ func c17Run(raw []byte) (*Line, error) {
 		//           then Min, Max, Base assigned
 		//   Hist 2: SetClamp(true), Map, Ticks with other options, CountTicks, SetClamp(false)
 		//   Hist 3: Ticks twice with other options, TicksAtLevel, then the observed calls
+		//   Hist 4: constructed with the target domain but ANOTHER base, used with the observed
+		//           options (Ticks, CountTicks, TicksAtLevel), then only Base assigned
+		//   Hist 5: constructed with the target, Ticks(o), Min/Max assigned to another domain,
+		//           Ticks(o), Min/Max assigned back (a result remembered per options would show)
 		var ticksO func(o scale.TickOptions) ([]float64, []float64)
 		var count func(level int) int
 		var at func(level int) []float64
@@ -111,6 +117,12 @@ func c17Run(raw []byte) (*Line, error) {
 				imn, imx = 3, 5e6
 			}
 			if c.Base == 10 {
+				ibase = 2
+			}
+		}
+		if c.Hist == 4 {
+			ibase = 10
+			if c.Base == 10 || c.Base == 0 {
 				ibase = 2
 			}
 		}
@@ -156,9 +168,26 @@ func c17Run(raw []byte) (*Line, error) {
 			setClamp(false)
 		case 3:
 			catch(func() { ticksO(o2); ticksO(scale.TickOptions{Max: 1}); at(3) })
+		case 4:
+			catch(func() { ticksO(o); count(0); at(1) })
+			assign(mn, mx, c.Base)
+		case 5:
+			catch(func() { ticksO(o) })
+			if c.K == 2 && mn < 0 {
+				assign(-7e4, -0.3, c.Base)
+			} else {
+				assign(0.3, 7e4, c.Base)
+			}
+			catch(func() { ticksO(o) })
+			assign(mn, mx, c.Base)
+		}
+		on := o
+		if c.NO != nil {
+			on = scale.TickOptions{Max: c.NO.Max, MinLevel: c.NO.MinLevel, MaxLevel: c.NO.MaxLevel}
 		}
 		ticks := func() ([]float64, []float64) { return ticksO(o) }
-		nice := func() (float64, float64) { return niceO(o) }
+		ticksN := func() ([]float64, []float64) { return ticksO(on) }
+		nice := func() (float64, float64) { return niceO(on) }
 		var major, minor []float64
 		pan, _ := catch(func() { major, minor = ticks() })
 		l.I(st(pan)).Fs(major).Fs(minor)
@@ -169,6 +198,7 @@ func c17Run(raw []byte) (*Line, error) {
 			pan, _ := catch(func() { n = count(lev); t = at(lev) })
 			l.I(lev).I(n).I(st(pan)).Fs(t)
 		}
+		l.I(on.Max).I(on.MinLevel).I(on.MaxLevel)
 		var a, b float64
 		pan, _ = catch(func() { a, b = nice() })
 		l.I(st(pan)).F(a).F(b)
@@ -177,7 +207,7 @@ func c17Run(raw []byte) (*Line, error) {
 		catch(func() { m0, m1 = mapf(a), mapf(b) })
 		l.F(m0).F(m1)
 		var major3 []float64
-		pan3, _ := catch(func() { major3, _ = ticks() })
+		pan3, _ := catch(func() { major3, _ = ticksN() })
 		pan, _ = catch(func() { a, b = nice() })
 		l.I(st(pan)).F(a).F(b)
 		l.I(st(pan3)).Fs(major3)
@@ -312,6 +342,12 @@ func c17LinearCase(rng *rand.Rand) c17Case {
 	case 2: // decimal fractions
 		mn = float64(rng.Intn(2001)-1000) / 100
 		mx = mn + float64(1+rng.Intn(1000))/100
+		switch rng.Intn(6) { // one end exactly 0
+		case 0:
+			mn, mx = 0, mx-mn
+		case 1:
+			mn, mx = mn-mx, 0
+		}
 	default: // width 1e-9..1e9, |centre|/width <= 1e3
 		w := logUniform(rng, 1e-9, 1e9)
 		c := (rng.Float64()*2 - 1) * w * math.Pow(10, rng.Float64()*3)
@@ -350,9 +386,25 @@ func c17LinearCase(rng *rand.Rand) c17Case {
 		c.Base = []int{1, -2}[rng.Intn(2)]
 		c.Levels = nil
 	}
+	if rng.Intn(25) == 0 && c.Base != 1 && c.Base >= 0 {
+		// level limits (and per-level observations) around the level where the spacing eb^(l/2)
+		// (x5) overflows float64 (findings hI-c17-1, hI-c17-2)
+		ov := 2 * int(math.Ceil(1024*math.Ln2/math.Log(float64(eb))))
+		c.O.MinLevel = ov - 5 + rng.Intn(9)
+		c.O.MaxLevel = c.O.MinLevel + rng.Intn(4)
+		// Nice: only levels whose spacing has overflowed.  (At the last levels BEFORE that the
+		// spacing is finite but the niced domain [-spacing, spacing] has an infinite width:
+		// finding hI-c17-4, outside the property's domains.)
+		if c.O.MinLevel < ov {
+			c.NO = &c17Opts{Max: c.O.Max, MinLevel: ov, MaxLevel: ov + rng.Intn(3)}
+		}
+		if c.Levels != nil {
+			c.Levels = []int{ov - 3, ov - 2, ov - 1, ov, ov + 1, ov + 4}
+		}
+	}
 	c.Min, c.Max = F64(mn), F64(mx)
 	if rng.Intn(2) == 0 {
-		c.Hist = 1 + rng.Intn(3)
+		c.Hist = 1 + rng.Intn(5)
 	}
 	return c
 }
@@ -411,7 +463,7 @@ func c17LogCase(rng *rand.Rand) c17Case {
 	}
 	c := c17Case{K: 2, Base: b, Min: F64(mn), Max: F64(mx), O: c17Opt(rng, 1, 3)}
 	if rng.Intn(2) == 0 {
-		c.Hist = 1 + rng.Intn(3)
+		c.Hist = 1 + rng.Intn(5)
 	}
 	if c.O.MinLevel != 0 || c.O.MaxLevel != 0 { // level limits: around the levels Log scales use
 		c.O.MinLevel = rng.Intn(5) - 1
@@ -426,13 +478,23 @@ func c17LogCase(rng *rand.Rand) c17Case {
 	if rng.Intn(25) == 0 {
 		c.O.Max = rng.Intn(2) - 1
 	}
-	// levels whose effective base Base^(2^level) is a finite float64 (level <= 7 for base 16)
+	// levels: mostly those whose effective base Base^(2^level) is a finite float64 (level <= 7 for base 16)
 	if mn == mx {
 		// CountTicks of a degenerate domain has no slack at all; Ticks handles Min == Max itself
 	} else if math.Abs(math.Log(mx/mn)) > 100 {
 		c.Levels = []int{2, 3, 4, 5, 6, 7} // wide domains: skip the levels with hundreds of ticks
 	} else {
 		c.Levels = []int{-1, 0, 1, 2, 3}
+	}
+	if rng.Intn(20) == 0 {
+		// level limits (and per-level observations) around the level where the effective base
+		// overflows float64 (findings hI-c17-1, hI-c17-2)
+		ov := int(math.Ceil(math.Log2(1024 * math.Ln2 / math.Log(float64(b)))))
+		c.O.MinLevel = ov - 2 + rng.Intn(4)
+		c.O.MaxLevel = c.O.MinLevel + rng.Intn(3)
+		if c.Levels != nil {
+			c.Levels = []int{ov - 2, ov - 1, ov, ov + 1, ov + 3}
+		}
 	}
 	return c
 }
